@@ -48,8 +48,11 @@ def classify_call(fn, b, t):
         return "refcell", n
     if n in TIME_OPS and ("std::time::SystemTime as std::ops::" in inst or "std::time::Duration as std::ops::" in inst or "std::time::Instant as std::ops::" in inst):
         return "timeop", _short_ty(inst)
-    if n == "exit" and c.startswith("std::process::exit"):
-        return None
+    # dependency conversions documented to panic on out-of-range input
+    if n in ("from", "into") and "chrono::DateTime" in inst and "SystemTime" in inst:
+        return "dep", "chrono DateTime from SystemTime"
+    if n in ("timestamp", "timestamp_nanos", "with_ymd_and_hms", "ymd", "and_hms") and c.startswith("chrono::") and "Opt" not in c and n != "timestamp":
+        return "dep", "chrono %s" % n
     return None
 
 
@@ -360,6 +363,113 @@ def check_condition(prog, site, cond):
                 if not ok:
                     return False, "caller %s does not test %s.is_some()" % (f2.path, field)
         return (n > 0), "all %d callers test %s.is_some()" % (n, field)
+    if ty == "constructor_validates":
+        # the type's constructor calls `callee` and `?`-propagates its failure before returning Ok(..)
+        ctor = prog.fns.get(cond["ctor"])
+        if ctor is None:
+            return False, "constructor %s not found" % cond["ctor"]
+        calls = [(bb, tt) for bb, tt in ctor.calls() if (tt.callee or "").endswith(cond["callee"])]
+        if len(calls) != 1:
+            return False, "%s calls %s at %d sites" % (cond["ctor"], cond["callee"], len(calls))
+        bb, tt = calls[0]
+        oks = [x for x in ctor.reachable() for st in ctor.blocks[x].stmts if st.rv is not None and st.rv.k == "agg" and st.rv.j.get("adt") == "std::result::Result" and st.rv.j.get("variant") == "Ok" and st.lhs.is_local() and st.lhs.local == 0]
+        if not oks or not all(prim.must_pass(ctor, 0, [x], [bb]) for x in oks):
+            return False, "an Ok return of %s does not pass %s" % (cond["ctor"], cond["callee"])
+        # its result goes through `?`
+        nxt = ctor.blocks[tt.target].term if tt.target is not None else None
+        if nxt is None or nxt.k != "call" or nxt.j.get("callee_name") != "branch":
+            return False, "the result of %s is not `?`-propagated" % cond["callee"]
+        # and the site's own callee is that validated function applied to the same receiver kind
+        o = prim.origin_of_operand(fn, t.args[0]).strip()
+        same = o.k == "call" and o.a["callee"].endswith(cond["callee"])
+        return same, "%s runs %s()? before returning Ok; this site unwraps the same call" % (prim.short(cond["ctor"]), cond["callee"])
+    if ty == "captures_group_total":
+        # `caps[i]` on a match of a constant regex in which group i takes part in every match
+        idx = t.args[1].const_value()
+        pats = []
+        for bb, tt in fn.calls():
+            if (tt.callee or "").startswith("regex::Regex::new"):
+                po = prim.origin_of_operand(fn, tt.args[0]).strip()
+                if po.k == "const":
+                    pats.append(po.a.get("v"))
+        if len(pats) != 1 or not isinstance(idx, int):
+            return False, "cannot identify the regex literal / constant group index"
+        ok, why = _group_total(pats[0], idx)
+        # and the Captures value comes from a successful captures() of it
+        o = prim.expand_single_def_vars(fn, prim.origin_of_operand(fn, t.args[0]))
+        from_caps = any(c.a["name"] == "captures" for c in o.call_nodes()) and any(x.k == "variant" and str(x.a) == "Some" for x in o.walk())
+        return ok and from_caps, "group %s of %r %s" % (idx, pats[0], why)
+    if ty == "dominated_by_count_eq":
+        n = cond["value"]
+        for gd in gs:
+            pr = gd["pred"].strip()
+            if pr.k == "bin" and pr.a == "Eq" and gd["bool"] is True and any(c.get("v") == n for c in pr.consts()) and any(c.a["name"] == "count" for c in pr.call_nodes()):
+                # the counted sequence is the one whose length is used at the site
+                m = t.j.get("msg", {})
+                src = None
+                if "a" in m:
+                    src = prim.origin_of_operand(fn, Operand(m["a"]))
+                counted = [x.a.get("local") for x in prim.expand_single_def_vars(fn, pr).walk() if x.k == "var"]
+                used = [x.a.get("local") for x in src.walk() if x.k == "var"] if src is not None else []
+                if src is None or (set(counted) & set(used)):
+                    return True, "dominated by count() == %d over the same sequence (a sequence with %d matching element(s) has length >= %d)" % (n, n, n)
+        return False, "no dominating count() == %d over the sequence; guards %s" % (n, prim.guards_fmt(gs)[:200])
+    if ty == "inner_match_covers_arm":
+        # unreachable!() in the wildcard arm of an inner `match s {lits.. , _ => unreachable}` nested in an outer arm whose
+        # literals are a subset of the inner ones, on the same subject with no write to the index in between
+        outer = None
+        inner = set()
+        for gd in gs:
+            pr = gd["pred"].strip()
+            if pr.k == "call" and pr.a["name"] in ("eq", "ne"):
+                lits = [c.get("v") for c in pr.consts() if c.get("k") == "str"]
+                if not lits:
+                    continue
+                is_true = (pr.a["name"] == "eq") == (gd["bool"] is True)
+                if not is_true:
+                    inner.add(lits[0])
+        arms = cond["arm"]
+        ok = set(arms) <= inner
+        return ok, "the site is on the all-false chain of inner tests %s which cover the enclosing arm %s" % (sorted(inner & set(arms)), arms)
+    if ty == "guard_false_lt_sum":
+        # `start..end` where a dominating guard `end < start_base + k` is false and every value of k is >= the offset used
+        for gd in gs:
+            pr = gd["pred"].strip()
+            if pr.k == "bin" and pr.a == "Lt" and gd["bool"] is False:
+                names = sorted(x.a.get("name") or "" for x in pr.walk() if x.k == "var")
+                if cond["end"] in names and cond["base"] in names and cond["k"] in names:
+                    ks = fn.locals_named(cond["k"])
+                    vals = [v for l in ks for _, v in prim.const_assigns_to(fn, l)]
+                    if vals and min(vals) >= cond["min"]:
+                        return True, "guard `%s < %s + %s` is false on the way here and %s >= %d" % (cond["end"], cond["base"], cond["k"], cond["k"], cond["min"])
+        return False, "no dominating false guard %s < %s + %s; guards %s" % (cond["end"], cond["base"], cond["k"], prim.guards_fmt(gs)[:200])
+    if ty == "param_true_and_callers":
+        p = cond["param"]
+        def is_p(o):
+            o = o.strip()
+            return (o.k == "arg" and o.a["name"] == p) or (o.k == "var" and o.a.get("name") == p)
+        dom = any((is_p(gd["pred"]) and gd["bool"] is True) or
+                  (gd["pred"].strip().k == "un" and gd["pred"].strip().a == "Not" and is_p(gd["pred"].strip().kids[0]) and gd["bool"] is False) for gd in gs)
+        if not dom:
+            return False, "site not dominated by %s == true; guards %s" % (p, prim.guards_fmt(gs)[:200])
+        pi = [l for l in fn.locals_named(p) if 1 <= l <= fn.arg_count]
+        qi = [l for l in fn.locals_named(cond["index_param"]) if 1 <= l <= fn.arg_count]
+        if not pi or not qi:
+            return False, "parameters not found"
+        n = 0
+        for f2, b2, t2_ in prog.all_calls():
+            if t2_.callee != fn.path:
+                continue
+            n += 1
+            flag = t2_.args[pi[0] - 1].const_value()
+            io = prim.origin_of_operand(f2, t2_.args[qi[0] - 1]).strip()
+            core = io.kids[0].strip() if io.k == "field" and io.kids else io
+            pos = core.k == "bin" and core.a in ("Add", "AddWithOverflow") and any(isinstance(c.get("v"), int) and c["v"] >= 1 for c in core.consts())
+            if flag is True and not pos:
+                return False, "caller %s passes %s=true with index %s (not provably >= 1)" % (f2.path, p, io.fmt())
+            if flag is None:
+                return False, "caller %s passes a non-constant %s" % (f2.path, p)
+        return n > 0, "dominated by %s == true, and all %d callers pass %s=true only with %s = <expr> + 1" % (p, n, p, cond["index_param"])
     if ty == "const_arg":
         v = t.args[cond["arg"]].const_value()
         return (v == cond["value"]), "argument %d is %s" % (cond["arg"], v)
@@ -398,3 +508,276 @@ def _vec_nonempty(prog, adt, field):
                 if s.rv is not None and s.rv.k == "agg" and s.rv.j.get("adt") == adt:
                     return False, "%s constructs %s outside its own `new`" % (f.path, adt)
     return ctor_ok, "%s::new pushes one element on every path, only `push` and by-value consumers touch %s" % (adt.split("::")[-1], field)
+
+
+# ------------------------------------------------------------------------------------------------------------
+# interval reasoning over provenance trees (quotients, remainders, shifts, widening casts): T1 for arithmetic that the
+# zone domain cannot express
+# ------------------------------------------------------------------------------------------------------------
+
+def _ty_range(ty):
+    if ty in zone.UNSIGNED:
+        return (0, zone.WIDTH_MAX[ty])
+    if ty in zone.SIGNED:
+        b = zone.SIGNED[ty]
+        return (-(1 << (b - 1)), (1 << (b - 1)) - 1)
+    return None
+
+
+def _origin_ty(fn, o):
+    s = o
+    if s.k == "const":
+        return s.a.get("ty")
+    if s.k in ("var", "arg"):
+        l = s.a.get("local", s.a.get("idx"))
+        return fn.local_ty(l) if l is not None else None
+    if s.k == "call":
+        t = s.a.get("term")
+        if t is not None and t.dest is not None and t.dest.is_local():
+            return fn.local_ty(t.dest.local)
+    if s.k == "cast":
+        return s.a
+    return None
+
+
+def interval(fn, o, za=None, d=None, depth=8):
+    """(lo, hi) of an integer provenance tree, or None when nothing is known"""
+    if depth <= 0 or o is None:
+        return None
+    s = o
+    while s.k in ("ref", "deref") and s.kids:
+        s = s.kids[0]
+    if s.k == "const":
+        v = s.a.get("v")
+        return (v, v) if isinstance(v, int) and not isinstance(v, bool) else None
+    if s.k in ("var", "arg"):
+        l = s.a.get("local", s.a.get("idx"))
+        if za is not None and d is not None and l in za.var_of_local:
+            v = za.var_of_local[l]
+            lo = -d.m[0][v]
+            hi = d.m[v][0]
+            r = _ty_range(fn.local_ty(l))
+            if r is not None:
+                lo = max(lo, r[0]) if lo != -zone.INF else r[0]
+                hi = min(hi, r[1]) if hi != zone.INF else r[1]
+            return (lo, hi)
+        return _ty_range(fn.local_ty(l)) if l is not None else None
+    if s.k == "field" and s.kids and str(s.a) == "0":
+        inner = s.kids[0]
+        while inner.k in ("ref", "deref") and inner.kids:
+            inner = inner.kids[0]
+        if inner.k == "bin":
+            return interval(fn, inner, za, d, depth - 1)
+    if s.k == "phi":
+        rs = [interval(fn, k, za, d, depth - 1) for k in s.kids]
+        if any(r is None for r in rs) or not rs:
+            return None
+        return (min(r[0] for r in rs), max(r[1] for r in rs))
+    if s.k == "cast":
+        inner = interval(fn, s.kids[0], za, d, depth - 1)
+        dst = _ty_range(s.a)
+        if inner is not None and dst is not None and inner[0] >= dst[0] and inner[1] <= dst[1]:
+            return inner
+        return dst
+    if s.k == "bin":
+        op = s.a
+        a = interval(fn, s.kids[0], za, d, depth - 1)
+        b = interval(fn, s.kids[1], za, d, depth - 1)
+        if op in ("Div",) and a is not None and b is not None and (b[0] > 0 or b[1] < 0):
+            cands = [int(x / y) for x in a for y in b if x not in (zone.INF, -zone.INF)]
+            if len(cands) == 4:
+                return (min(cands), max(cands))
+        if op == "Rem" and b is not None and b[0] > 0:
+            m = b[1] - 1
+            if a is not None and a[0] >= 0:
+                return (0, m)
+            return (-m, m)
+        if op in ("Shr", "ShrUnchecked") and a is not None and b is not None and a[0] >= 0 and b[0] >= 0 and a[1] != zone.INF:
+            return (0, a[1] >> b[0])
+        if op in ("Add", "AddWithOverflow", "AddUnchecked") and a is not None and b is not None:
+            return (a[0] + b[0], a[1] + b[1])
+        if op in ("Sub", "SubWithOverflow", "SubUnchecked") and a is not None and b is not None:
+            return (a[0] - b[1], a[1] - b[0])
+        if op in ("Mul", "MulWithOverflow") and a is not None and b is not None and zone.INF not in (a[1], b[1]) and -zone.INF not in (a[0], b[0]):
+            c = [x * y for x in a for y in b]
+            return (min(c), max(c))
+        if op == "BitAnd" and b is not None and b[0] == b[1] and b[0] >= 0:
+            return (0, b[0])
+    if s.k == "call":
+        r = API_RANGES.get((s.a["callee"].split("::<")[0], ))
+        if r is None:
+            r = API_RANGES.get(s.a["callee"].split("::<")[0])
+        if r is not None:
+            return r
+        return _ty_range(_origin_ty(fn, s))
+    return None
+
+
+# documented result ranges of std APIs (contracts read from the std documentation)
+API_RANGES = {
+    "std::time::Duration::subsec_nanos": (0, 999_999_999),
+    "std::time::Duration::subsec_micros": (0, 999_999),
+    "std::time::Duration::subsec_millis": (0, 999),
+    "std::char::methods::<impl char>::len_utf8": (1, 4),
+    "core::char::methods::<impl char>::len_utf8": (1, 4),
+}
+
+
+def t1_interval(fn, site, za):
+    """overflow asserts whose operands have provable numeric ranges"""
+    t = site.term
+    m = t.j["msg"]
+    if m.get("k") != "overflow":
+        return False, ""
+    st = za.state_before_term(site.bb) if za is not None and za.in_states else None
+    d = st[0] if st else None
+    oa, ob = Operand(m["a"]), Operand(m["b"])
+    ta = za._op_ty(oa) or za._op_ty(ob)
+    r = _ty_range(ta)
+    if r is None:
+        return False, ""
+    ia = interval(fn, prim.origin_of_operand(fn, oa), za, d)
+    ib = interval(fn, prim.origin_of_operand(fn, ob), za, d)
+    if ia is None or ib is None:
+        return False, "operand ranges unknown"
+    op = m.get("op")
+    if op == "Add":
+        lo, hi = ia[0] + ib[0], ia[1] + ib[1]
+    elif op == "Sub":
+        lo, hi = ia[0] - ib[1], ia[1] - ib[0]
+    elif op == "Mul":
+        if zone.INF in (ia[1], ib[1]) or -zone.INF in (ia[0], ib[0]):
+            return False, ""
+        c = [x * y for x in ia for y in ib]
+        lo, hi = min(c), max(c)
+    else:
+        return False, ""
+    if lo >= r[0] and hi <= r[1]:
+        return True, "interval: %s of [%s, %s] and [%s, %s] stays within %s" % (op, ia[0], ia[1], ib[0], ib[1], ta)
+    return False, "interval: %s of [%s, %s] and [%s, %s] may leave %s" % (op, ia[0], ia[1], ib[0], ib[1], ta)
+
+
+# ------------------------------------------------------------------------------------------------------------
+# preconditions checked at call sites
+# ------------------------------------------------------------------------------------------------------------
+
+def check_preconditions(prog, zc, pre):
+    """for each function with declared preconditions, every call site must establish them (zone of the caller).
+    returns list of (callee, caller fn, bb, ok, text)"""
+    out = []
+    for callee, plist in pre.items():
+        cf = prog.fns.get(callee)
+        if cf is None:
+            out.append((callee, None, None, False, "function with declared preconditions not found"))
+            continue
+        n = 0
+        for f, b, t in prog.all_calls():
+            if t.callee != callee:
+                continue
+            n += 1
+            za = zc.get(f)
+            st = za.state_before_term(b)
+            if st is None:
+                out.append((callee, f, b, True, "call unreachable in the abstract semantics"))
+                continue
+            d, env = st
+            for p in plist:
+                def form(x):
+                    if x[0] == "zero":
+                        return ("lin", 0, 0)
+                    ls = [l for l in cf.locals_named(x[1]) if 1 <= l <= cf.arg_count]
+                    if not ls:
+                        return None
+                    actual = t.args[ls[0] - 1]
+                    if x[0] == "local":
+                        return za.lin_of_operand(actual, env)
+                    bl = za.base_local(actual, env)
+                    return ("lin", za.len_of_local[bl], 0) if bl is not None else None
+                a, b2 = form(p["lhs"]), form(p["rhs"])
+                ok = a is not None and b2 is not None and za.le(d, (a[0], a[1], a[2] + p.get("lhs_c", 0)), (b2[0], b2[1], b2[2] + p.get("rhs_c", 0)))
+                out.append((callee, f, b, ok, "%s%+d <= %s%+d at the call: %s vs %s" % (p["lhs"][1:], p.get("lhs_c", 0), p["rhs"][1:], p.get("rhs_c", 0), za.describe(d, a), za.describe(d, b2))))
+        if n == 0:
+            out.append((callee, None, None, False, "no call site found"))
+    return out
+
+
+# ------------------------------------------------------------------------------------------------------------
+# recursion (stack depth is input controlled => abort, not an exit status)
+# ------------------------------------------------------------------------------------------------------------
+
+def recursion_cycles(prog, roots, crate="findutils"):
+    """strongly connected components (size > 1 or self loop) of the call graph among reachable crate functions"""
+    reach = [p for p in prog.reachable_fns(roots) if prog.fns[p].crate == crate]
+    cg = prog.call_graph()
+    idx = {}
+    low = {}
+    st = []
+    on = set()
+    out = []
+    counter = [0]
+    import sys
+    sys.setrecursionlimit(10000)
+
+    def strong(v):
+        idx[v] = low[v] = counter[0]
+        counter[0] += 1
+        st.append(v)
+        on.add(v)
+        for w in cg.get(v, ()):
+            if w not in prog.fns or prog.fns[w].crate != crate:
+                continue
+            if w not in idx:
+                strong(w)
+                low[v] = min(low[v], low[w])
+            elif w in on:
+                low[v] = min(low[v], idx[w])
+        if low[v] == idx[v]:
+            comp = []
+            while True:
+                w = st.pop()
+                on.discard(w)
+                comp.append(w)
+                if w == v:
+                    break
+            if len(comp) > 1 or v in cg.get(v, ()):
+                out.append(sorted(comp))
+    for v in reach:
+        if v not in idx:
+            strong(v)
+    return out
+
+
+def _group_total(pat, idx):
+    """capture group `idx` of regex `pat` participates in every match: not quantified by ? * {0, and not under alternation"""
+    depth = 0
+    n = 0
+    i = 0
+    start = None
+    stack = []
+    if "|" in pat:
+        return False, "pattern has alternation"
+    while i < len(pat):
+        ch = pat[i]
+        if ch == "\\":
+            i += 2
+            continue
+        if ch == "[":
+            j = pat.find("]", i + 2)
+            i = (j if j != -1 else len(pat)) + 1
+            continue
+        if ch == "(":
+            cap = not pat.startswith("(?", i) or pat.startswith("(?P<", i)
+            if cap:
+                n += 1
+            stack.append((n if cap else None, i))
+        elif ch == ")":
+            g, st = stack.pop()
+            nxt = pat[i + 1] if i + 1 < len(pat) else ""
+            optional = nxt in ("?", "*") or pat.startswith("{0", i + 1)
+            if g == idx:
+                # also every enclosing group must be mandatory: approximated by requiring top level
+                if stack:
+                    return False, "is nested"
+                return (not optional), ("is mandatory" if not optional else "is optional")
+        i += 1
+    return False, "not found"
